@@ -69,6 +69,7 @@ impl Session {
 
     /// Execute one op on the implementation, return its canonical answer.
     pub fn exec(&mut self, op: &str, out: &mut Out) -> String {
+    let _crumb = crate::common::crumb::guard(op);
         let w: Vec<&str> = op.split_whitespace().collect();
         match w.as_slice() {
             ["reseq", "new"] => {
